@@ -24,6 +24,7 @@ fn random_env(r: &mut Prng, pool_heavy: bool) -> Env {
         context: *r.pick(&[Context::External, Context::InWorker, Context::Siblings, Context::Warm]),
         cpus: *r.pick(&[1usize, 1, 2, 3, 4]),
         envvars_seed: r.next_u64() >> 20,
+        heap_seed: r.next_u64() >> 20,
         replay: None,
     }
 }
@@ -39,6 +40,8 @@ fn envs_for(r: &mut Prng, uses_pool: bool, thorough: bool) -> Vec<Env> {
         Env { context: Context::Warm, ..e0.clone() },
         Env { cpus: *r.pick(&[2usize, 3, 4]), ..e0.clone() },
         Env { envvars_seed: 1 + (r.next_u64() >> 20), ..e0.clone() },
+        Env { heap_seed: 1 + (r.next_u64() >> 20), ..e0.clone() },
+        Env { heap_seed: 1 + (r.next_u64() >> 20), ..e0.clone() },
         Env { threads: *r.pick(&[2usize, 3, 4, 5]), policy: "eager-steal".into(), sched_seed: r.next_u64() >> 16, ..e0.clone() },
         Env { threads: 16, policy: "chaos".into(), sched_seed: r.next_u64() >> 16, ..e0.clone() },
         // all together
@@ -178,6 +181,9 @@ fn cause_of(fail: &Env, e0: &Env) -> String {
     if fail.envvars_seed != e0.envvars_seed {
         c.push("envvars");
     }
+    if fail.heap_seed != e0.heap_seed {
+        c.push("heap-addresses");
+    }
     if c.is_empty() {
         c.push("history");
     }
@@ -260,6 +266,7 @@ fn minimise(scenario: &str, p: P, fail_env: &Env, prelude_fail: &[Job], prelude_
         Box::new(|e: &Env| Env { context: Context::External, ..e.clone() }),
         Box::new(|e: &Env| Env { cpus: 1, ..e.clone() }),
         Box::new(|e: &Env| Env { envvars_seed: 0, ..e.clone() }),
+        Box::new(|e: &Env| Env { heap_seed: 0, ..e.clone() }),
         Box::new(|e: &Env| Env { clock_seed: 0, ..e.clone() }),
         Box::new(|e: &Env| Env { entropy_seed: 0, ..e.clone() }),
         Box::new(|e: &Env| Env { threads: 1, policy: "sequential".into(), sched_seed: 0, replay: None, ..e.clone() }),
@@ -436,17 +443,19 @@ pub fn check(tier: &str, seed: u64, only: Option<&str>) -> i32 {
                     || (r.kth_in_process > 0 && planned.meta[i].2)
                     || env.context == Context::Warm
                     || env.cpus != 1
-                    || env.envvars_seed != 0;
+                    || env.envvars_seed != 0
+                    || env.heap_seed != 0;
                 if nontrivial {
                     distinct.insert((*si, planned.meta[i].1.seed, planned.meta[i].1.size as u8, stats.sched_hash, env.entropy_seed, env.clock_seed, env.context));
                 }
                 let col = format!(
-                    "T={}{}{}{}{}{}",
+                    "T={}{}{}{}{}{}{}",
                     if env.threads == 1 { "1".to_string() } else { format!("{}:{}", env.threads, env.policy) },
                     if env.entropy_seed != 0 { " +entropy" } else { "" },
                     if env.clock_seed != 0 { " +clock" } else { "" },
                     if env.cpus != 1 { " +cpus" } else { "" },
                     if env.envvars_seed != 0 { " +envvars" } else { "" },
+                    if env.heap_seed != 0 { " +heap" } else { "" },
                     match env.context {
                         Context::External => "",
                         Context::InWorker => " +inworker",
